@@ -5,6 +5,7 @@ import (
 	"encoding/json"
 	"fmt"
 	"math/rand"
+	"net"
 	"runtime"
 	"sync"
 	"sync/atomic"
@@ -89,18 +90,19 @@ func waitCh(ch chan struct{}, d time.Duration) bool {
 }
 
 type c19Env struct {
-	srv    *refpeer.Server
-	sc     *uasc.SecureChannel
-	conn   *uacp.Conn
-	ctl    *c19Ctl
-	mu     sync.Mutex
-	held   map[string]func() // nonce -> send the answer now
-	opnGo  chan struct{}     // when non-nil, renewal OPNs are answered only after it is closed
+	srv     *refpeer.Server
+	sc      *uasc.SecureChannel
+	conn    *uacp.Conn
+	ctl     *c19Ctl
+	mu      sync.Mutex
+	held    map[string]func() // nonce -> send the answer now
+	opnGo   chan struct{}     // when non-nil, renewal OPNs are answered only after it is closed
+	stall   chan struct{}     // a request "stall-..." parks the server's read loop until this is closed
 	timeout time.Duration
 }
 
 func c19Setup(cs c19Case) (*c19Env, error) {
-	e := &c19Env{ctl: newC19Ctl(), held: map[string]func(){}, timeout: time.Duration(cs.TimeoutMS) * time.Millisecond}
+	e := &c19Env{ctl: newC19Ctl(), held: map[string]func(){}, stall: make(chan struct{}), timeout: time.Duration(cs.TimeoutMS) * time.Millisecond}
 	srv, err := refpeer.NewServer(refpeer.ServerOpts{})
 	if err != nil {
 		return nil, err
@@ -121,6 +123,12 @@ func c19Setup(cs c19Case) (*c19Env, error) {
 			e.held[nonce] = reply
 			e.mu.Unlock()
 		case len(nonce) > 5 && nonce[:5] == "drop-":
+		case len(nonce) > 6 && nonce[:6] == "stall-":
+			// the peer is alive but stops reading: small socket buffer, read loop parked
+			if tc, ok := sc.Channel.Conn.(*net.TCPConn); ok {
+				tc.SetReadBuffer(16 << 10)
+			}
+			<-e.stall
 		default:
 			reply()
 		}
@@ -162,6 +170,11 @@ func c19Setup(cs c19Case) (*c19Env, error) {
 
 func (e *c19Env) close() {
 	uasc.VerifSetHook(nil)
+	select {
+	case <-e.stall:
+	default:
+		close(e.stall)
+	}
 	e.sc.Close()
 	e.conn.Close()
 	e.srv.Close()
@@ -364,6 +377,44 @@ func c19One(c *fw.Ctx, cs c19Case) {
 			return
 		}
 		c.Class("renewal-failed-with:"+classOf(rerr.Error()), 1)
+	case "peer-stops-reading":
+		// the peer is alive but no longer reads; a request of many chunks cannot be written out. Its caller must get an
+		// error within the bound all the same (the write of every chunk is bounded, not only of the first), and the slot
+		// is released. The byte stream ends in the middle of a chunk, so no later answers are expected on this channel.
+		e.conn.SetWriteBuffer(16 << 10)
+		first := e.read(bg, "stall-0")
+		time.Sleep(20 * time.Millisecond)
+		wdone := make(chan struct{})
+		var werr error
+		go func() {
+			defer close(wdone)
+			req := &ua.WriteRequest{NodesToWrite: []*ua.WriteValue{{NodeID: ua.NewNumericNodeID(1, 1), AttributeID: ua.AttributeIDValue,
+				Value: &ua.DataValue{EncodingMask: ua.DataValueValue, Value: ua.MustVariant(make([]byte, (2+r.Intn(5))<<20))}}}}
+			werr = e.sc.SendRequest(bg, req, nil, func(ua.Response) error { return nil })
+		}()
+		if !waitForBeats(wdone, 4*limit+6000) {
+			cs.Detail = fmt.Sprintf("a request of many chunks to a peer that stopped reading has not returned after %d heartbeats (timeout %d ms)\n%s", 4*limit+6000, cs.TimeoutMS, blockedDump())
+			c.Violation("c19:call-never-returns:"+cs.Scenario, cs.Detail, cs)
+			return
+		}
+		if werr == nil {
+			cs.Detail = "a request that the peer never read succeeded"
+			c.Violation("c19:success-without-answer", cs.Detail, cs)
+			return
+		}
+		c.Class("peer-stops-reading:request-failed-with:"+classOf(werr.Error()), 1)
+		if !bounded(first, "peer stopped reading") {
+			return
+		}
+		time.Sleep(20 * time.Millisecond)
+		c.Eval(2)
+		if n := e.sc.VerifPendingHandlers(); n != 0 {
+			cs.Detail = fmt.Sprintf("%d handler slots are still registered after every call has returned", n)
+			c.Violation("c19:pending-slot-not-released:"+cs.Scenario, cs.Detail, cs)
+			return
+		}
+		c.Class("scenario-held:"+cs.Scenario, 1)
+		return
 	case "cancelled-before-send":
 		// a request whose context has ended before anything was written must not leave a handler behind
 		for k := 0; k < 6; k++ {
@@ -419,10 +470,10 @@ func c19One(c *fw.Ctx, cs c19Case) {
 // waitForBeats waits until done is closed or n heartbeats passed.
 func waitForBeats(done chan struct{}, n int64) bool { return fw.WaitBeats(done, n) }
 
-var c19Scenarios = []string{"withheld", "answer-near-timeout", "late-answer-forced", "cancel-forced", "late-renewal-answer-forced", "cancelled-before-send", "renewal-answer-withheld"}
+var c19Scenarios = []string{"withheld", "answer-near-timeout", "late-answer-forced", "cancel-forced", "late-renewal-answer-forced", "cancelled-before-send", "renewal-answer-withheld", "peer-stops-reading"}
 
 func c19Run(c *fw.Ctx) error {
-	n := int64(c.Pick(56, 6000))
+	n := int64(c.Pick(64, 6400))
 	var done int64
 	for i := int64(0); i < n; i++ {
 		if int(i%int64(c.NBatch)) != c.Batch || i < c.Resume {
@@ -446,7 +497,7 @@ func init() {
 	fw.Register("C19", fw.Spec{
 		Plan: func(tier string) fw.Plan {
 			p := fw.Plan{Batches: 8, TimeoutS: 900, MinNontrivial: 40, Level: "exploration",
-				Rule:        "a real client-kind channel (request timeout 100/200/300 ms) against the scripted server, scenarios: answers withheld for good; answers released within +-20 ms of the caller's timer (timeout + 250 ms leniency); forced races through the hook points: the caller is parked at sc.timeout.fired / sc.ctx.done (timer fired or context ended, handler not yet taken back), only then the server answers, optionally the dispatcher is parked at sc.disp.afterPop until the caller has returned; the same for the OpenSecureChannel answer of a renewal (caller returns and open() runs its deferred unlock before the dispatcher goes on); requests whose context ended before anything was written; oracle: un-forced calls return within 3 x (timeout + 250 ms) counted in heartbeats, no call stays blocked (heartbeat clock, goroutine dump attached), at quiescence no handler slot is registered (verif accessor), and 10 fresh requests which the server answers complete; distinct = (scenario, timeout, seed)",
+				Rule:        "a real client-kind channel (request timeout 100/200/300 ms) against the scripted server, scenarios: answers withheld for good; answers released within +-20 ms of the caller's timer (timeout + 250 ms leniency); forced races through the hook points: the caller is parked at sc.timeout.fired / sc.ctx.done (timer fired or context ended, handler not yet taken back), only then the server answers, optionally the dispatcher is parked at sc.disp.afterPop until the caller has returned; the same for the OpenSecureChannel answer of a renewal (caller returns and open() runs its deferred unlock before the dispatcher goes on); requests whose context ended before anything was written; a request of 2-6 MB (dozens of chunks) to a peer that is alive but has stopped reading (small socket buffers), which must fail within the bound and release its slot; oracle: un-forced calls return within 3 x (timeout + 250 ms) counted in heartbeats, no call stays blocked (heartbeat clock, goroutine dump attached), at quiescence no handler slot is registered (verif accessor), and 10 fresh requests which the server answers complete; distinct = (scenario, timeout, seed)",
 				Assumptions: []string{"heartbeats <= elapsed milliseconds, so load cannot make a call look late; the hook parks a goroutine only where the code is between two critical sections"}}
 			if tier == "thorough" {
 				p.Batches, p.TimeoutS, p.MinNontrivial = 16, 3400, 3000
